@@ -4,6 +4,9 @@
 // x ALL run segmentations (new run in the same process = repeated step), against a reference BAOA integrator.
 #include "vproxy.h"
 #include "common.h"
+#include "colvarbias_abf.h"
+#include "colvarbias_restraint.h"
+#include "colvargrid.h"
 
 using namespace vc;
 
@@ -337,6 +340,62 @@ int main(int argc, char **argv)
             if (!failed) { r.seen("nontrivial", fnv(det)); r.seen("states", fnv(det + num(ref.cur.x))); }
             delete px;
           }
+    }
+    // ---- consumers of the total force of an extended coordinate (eABF, TI samples of a restraint): the extended system does not
+    // depend on the engine's convention for atomic forces, so with scripted atomic positions the data collected under the two
+    // conventions must be identical - all words of length 5 over 3 moves, 2 consumers ----
+    if (shard == 2 % nsh) {
+      for (int consumer = 0; consumer < 2; consumer++)
+        for (int wv = 0; wv < 243; wv++) {
+          r.count("evaluations");
+          int letters[5] = {wv % 3, (wv / 3) % 3, (wv / 9) % 3, (wv / 27) % 3, wv / 81};
+          std::string det = std::string("{\"consumer\":\"") + (consumer ? "harmonic restraint with writeTISamples" : "abf") + "\",\"word\":" + std::to_string(wv);
+          std::vector<double> data[2];
+          bool refused = false;
+          for (int ss = 0; ss < 2 && !refused; ss++) {
+            vproxy *px = new vproxy(2, ss != 0);
+            px->set_target_temperature(300.0);
+            px->set_integration_timestep(1.0);
+            double xi = 2.0;
+            px->x[1] = cvm::rvector(xi, 0, 0);
+            std::string conf = "colvar {\n name d\n width 0.25\n lowerBoundary 1.0\n upperBoundary 3.0\n extendedLagrangian on\n extendedFluctuation 0.2\n extendedTimeConstant 20.0\n"
+                               " extendedLangevinDamping 0.0\n distance {\n group1 { atomNumbers 1 }\n group2 { atomNumbers 2 }\n }\n}\n";
+            conf += consumer ? "harmonic {\n name b\n colvars d\n centers 2.2\n forceConstant 0.5\n writeTISamples on\n}\n" : "abf {\n name b\n colvars d\n fullSamples 2\n}\n";
+            if (px->config(conf) != 0) { r.violation("C17:consumer:configuration-rejected", det + ",\"error\":\"" + jesc(px->errtxt.substr(0, 200)) + "\"}"); refused = true; delete px; break; }
+            for (int s = 0; s < 10; s++) {
+              xi += 0.5 * MOVE[letters[s / 2] % 3] * ((s % 2) ? 0.3 : 1.0);
+              if (xi < 1.1) xi = 1.1;
+              if (xi > 2.9) xi = 2.9;
+              px->x[1] = cvm::rvector(xi, 0, 0);
+              px->fsys[0] = cvm::rvector(-0.7, 0, 0); px->fsys[1] = cvm::rvector(0.7, 0, 0);
+              if (px->step(s) != 0) { r.violation("C17:consumer:error-during-run", det + ",\"step\":" + std::to_string(s) + "}"); refused = true; break; }
+              r.count("transitions");
+              data[ss].push_back(px->energy);
+              data[ss].push_back(px->fapp[1].x);
+            }
+            if (!refused) {
+              if (consumer) {
+                colvarbias_ti *ti = dynamic_cast<colvarbias_ti *>(px->bias("b"));
+                for (int b = 0; b < 8; b++) { std::vector<int> ix{b}; data[ss].push_back((double) ti->ti_count->value(ix)); data[ss].push_back(ti->ti_avg_forces->value_output(ix, 0)); }
+              } else {
+                colvarbias_abf *abf = dynamic_cast<colvarbias_abf *>(px->bias("b"));
+                for (int b = 0; b < 8; b++) { std::vector<int> ix{b}; data[ss].push_back((double) abf->samples->value(ix)); data[ss].push_back(abf->gradients->value_output(ix, 0)); }
+              }
+            }
+            delete px;
+          }
+          if (refused) continue;
+          bool nonzero = false;
+          for (size_t i = 20; i < data[0].size(); i++) if (data[0][i] != 0.0) nonzero = true;
+          if (!nonzero) { r.violation("C17:consumer:vacuous-case", det + "}"); continue; }
+          for (size_t i = 0; i < data[0].size(); i++)
+            if (!close_rel(data[1][i], data[0][i], std::max(1.0, std::fabs(data[0][i])), 1e-11, 1e-12)) {
+              r.violation(std::string("C17:consumer-data-differ-between-engine-conventions:") + (consumer ? "ti-samples" : "eabf"),
+                          det + ",\"index\":" + std::to_string(i) + ",\"one_step_late\":" + num(data[0][i]) + ",\"same_step\":" + num(data[1][i]) + "}");
+              break;
+            }
+          r.seen("nontrivial", fnv(det));
+        }
     }
     // ---- energy conservation without friction: second-order fluctuation, no drift ----
     if (shard == 0) {
